@@ -113,3 +113,35 @@ Definition run_C11 (case obs : sx) : sx :=
   | SL (t :: _), SL recs => if is_sym "ask" t then SL [obs; p11_all recs] else run_hub case obs
   | _, _ => bad_case
   end.
+
+(* ---- C04: one record per Tell/Ask: (from ident loc result ((node srcOwner keyOwner) ...)) ---- *)
+Definition allow_of (rows : list sx) (i j : N) : bool :=
+  match nth (N.to_nat i) rows (SL []) with
+  | SL r => match nth (N.to_nat j) r (SN 0) with SN 0 => false | _ => true end
+  | _ => false end.
+
+Definition p04_rec (rows : list sx) (x : sx) : sx :=
+  match x with
+  | SL [SN from; SN ident; SN loc; _; SL ds] =>
+      let chk (d : sx) : sx :=
+        match d with
+        | SL [SN node; so; ko] =>
+            if negb (node =? loc) then bad "payload-handed-to-a-node-it-was-not-sent-to"
+            else if negb (ident =? loc) then bad "payload-handed-to-a-node-without-the-addressed-identity"
+            else if negb (match so with SN s => s =? from | _ => false end) then bad "source-identity-is-not-the-senders"
+            else if negb (match ko with SN k => k =? from | _ => false end) then bad "looked-up-key-is-not-the-senders"
+            else if negb (allow_of rows node from) then bad "delivered-although-the-whitelist-rejects-the-sender"
+            else ok
+        | _ => bad "unreadable-observation"
+        end in
+      fold_left (fun acc d => if is_sym "ok" acc then chk d else acc) ds ok
+  | _ => bad "unreadable-observation"
+  end.
+
+Definition run_C04 (case obs : sx) : sx :=
+  match case, obs with
+  | SL [t; _; SL rows; _], SL recs =>
+      if is_sym "sec" t then SL [obs; fold_left (fun acc x => if is_sym "ok" acc then p04_rec rows x else acc) recs ok]
+      else bad_case
+  | _, _ => bad_case
+  end.
